@@ -17,4 +17,37 @@ def residual : Stmt → Label → Stmt
   | spawnAndCheck l ch, _ => seq (join l ch) (ifChildOk skip fail)
   | s, _ => s
 
+/-- scope of the property: every PT_ macro sits on its own source line, so the `case` labels of one
+function body are pairwise distinct and non-zero (0 = start); the same holds in every child.
+`join`/`spin` are not source forms (they only arise as residuals). -/
+def WF : Stmt → Prop
+  | seq a b => WF a ∧ WF b ∧ ∀ l, l ∈ labels a → l ∉ labels b
+  | ifte _ a b => WF a ∧ WF b ∧ ∀ l, l ∈ labels a → l ∉ labels b
+  | ifChildOk a b => WF a ∧ WF b ∧ ∀ l, l ∈ labels a → l ∉ labels b
+  | .while _ b => WF b
+  | yield l => l ≠ 0
+  | wait l => l ≠ 0
+  | waitUntil l _ => l ≠ 0
+  | spawn l ch => l ≠ 0 ∧ WF ch
+  | spawnAndCheck l ch => l ≠ 0 ∧ WF ch
+  | call _ ch => WF ch
+  | join _ _ => False
+  | spin _ _ => False
+  | _ => True
+
+theorem WF.pos {s : Stmt} (h : WF s) : ∀ l, l ∈ labels s → l ≠ 0 := by
+  induction s with
+  | seq a b iha ihb | ifte c a b iha ihb | ifChildOk a b iha ihb =>
+    intro l hl; simp only [labels, List.mem_append] at hl
+    rcases hl with hl | hl
+    · exact iha h.1 l hl
+    · exact ihb h.2.1 l hl
+  | «while» c b ih => intro l hl; exact ih h l hl
+  | yield l' | wait l' | waitUntil l' c =>
+    intro l hl; simp only [labels, List.mem_singleton] at hl; subst hl; exact h
+  | spawn l' ch _ | spawnAndCheck l' ch _ =>
+    intro l hl; simp only [labels, List.mem_singleton] at hl; subst hl; exact h.1
+  | join | spin => exact absurd h id
+  | _ => intro l hl; simp [labels] at hl
+
 end Librfn.Spec.PT
